@@ -38,8 +38,8 @@ pub struct DefOut {
 pub fn parse_disamb(errors: &[String]) -> Vec<Vec<usize>> {
     errors
         .iter()
-        .filter_map(|e| e.strip_prefix("Disambiguation(["))
-        .map(|r| r.trim_end_matches("])").split(',').filter_map(|x| x.trim().parse().ok()).collect())
+        .filter(|e| e.starts_with("Disambiguation"))
+        .map(|r| r.split(|c: char| !c.is_ascii_digit()).filter(|x| !x.is_empty()).filter_map(|x| x.parse().ok()).collect())
         .collect()
 }
 
